@@ -168,23 +168,43 @@ def laziness(specs):
 
 def check(op, specs, alias=0):
     """alias (dyads, both lists): 1 = the very same object is passed as both operands,
-    2 = the second operand is a deep_copy of the first (what `:` leaves on the stack).
+    2 = the second operand is a deep_copy of the first (what `:` leaves on the stack),
+    3/4 = the first operand is a lazy list and the second is Ṙ / Ḣ of that very object, 5/6 = the same with the sides swapped.
     -> ('discard', reason) | None | (sig, msg)"""
+    view = None
     if alias and len(specs) == 2 and is_list(specs[0]):
-        specs = [specs[0], specs[0]]
+        if alias in (1, 2):
+            specs = [specs[0], specs[0]]
+        else:
+            # 3..6: one operand is a lazy list object, the other a lazy view of that very object
+            # (its reverse / its tail, made by the interpreter's own Ṙ / Ḣ), on either side
+            base = ("z", items(specs[0]))
+            view = "Ṙ" if alias in (3, 5) else "Ḣ"
+            derived = ("l", items(base)[::-1] if view == "Ṙ" else items(base)[1:])
+            specs = [base, derived] if alias in (3, 4) else [derived, base]
     else:
         alias = 0
     try:
         want = expected(op, specs)
     except Discard as d:
         return ("discard", str(d))
-    tag = f"{shape_of(specs)}:{laziness(specs)}" + (":same-object" if alias == 1 else ":copy-of-lhs" if alias == 2 else "")
+    tag = f"{shape_of(specs)}:{laziness(specs)}" + (":same-object" if alias == 1 else ":copy-of-lhs" if alias == 2 else
+                                                   f":view-{view}-of-{'lhs' if alias in (3, 4) else 'rhs'}" if alias else "")
     try:
         vals = [harness.build_value(s) for s in specs]
         if alias == 1:
             vals[1] = vals[0]
         elif alias == 2:
             vals[1] = harness.vyxal.helpers.deep_copy(vals[0])
+        elif alias:
+            b = 0 if alias in (3, 4) else 1
+            try:
+                made = run_el(view, [vals[b]])
+            except Exception:  # noqa: BLE001
+                return ("discard", "making the view raised")
+            if len(made) != 1:
+                return ("discard", "making the view")
+            vals[1 - b] = made[0]
         st_ = run_el(op, vals)
         got = [norm(x, cap=2000) for x in st_]
     except (harness.FuelExhausted, harness.Inconclusive):
@@ -264,13 +284,13 @@ def _one(rec, op, ar, kinds, seed, n):
                 rec.classes[f"discarded {op}"] += 1
                 return
             rec.case(key=(op, repr(specs), alias), nontrivial=_nontrivial(specs),
-                     cls=[f"el {op}", "shape " + shape_of(specs), laziness(specs)] + (["aliased operands"] if alias else []))
+                     cls=[f"el {op}", "shape " + shape_of(specs), laziness(specs)] + (["aliased operands"] if alias in (1, 2) else ["one operand is a lazy view of the other"] if alias else []))
             if r:
                 rec.fail(r[0], {"op": op, "specs": _tolist(specs), "alias": alias}, r[1])
             elif len(rec.samples) < 3 and _nontrivial(specs) and len(specs) == 2:
                 rec.sample({"element": op, "args": _tolist(specs)})
 
-        campaign.hyp_run(t, {"args": args_st(ar, kinds), "alias": st.sampled_from([0, 0, 0, 1, 2])}, seed + sum(map(ord, op)), n)
+        campaign.hyp_run(t, {"args": args_st(ar, kinds), "alias": st.sampled_from([0, 0, 0, 0, 1, 2, 3, 4, 5, 6])}, seed + sum(map(ord, op)), n)
 
 
 def run(rec, tier, seed):
@@ -310,7 +330,7 @@ def replay(case):
     specs = [_totuple(s) for s in case["specs"]]
     if len(specs) != ops[op][0] or not any(is_list(s) for s in specs):
         return None
-    r = check(op, specs, case.get("alias", 0) if case.get("alias", 0) in (0, 1, 2) else 0)
+    r = check(op, specs, case.get("alias", 0) if case.get("alias", 0) in (0, 1, 2, 3, 4, 5, 6) else 0)
     if r and r[0] == "discard":
         return None
     return r
